@@ -153,9 +153,9 @@ def capsule_tree(rng, base: str, symlinks=True, odd_names=True, root_via_symlink
     os.makedirs(real_root)
     meta = {"base": base, "files": [], "dirs": [], "tokens": {}, "outside_names": [], "links": []}
 
-    def add_file(path, inside_expected):
+    def add_file(path, inside_expected, pad=0):
         tok = token(rng)
-        content = f"{tok}\nsecond line of {os.path.basename(path)!r}\n".encode("utf-8", "backslashreplace")
+        content = f"{tok}\nsecond line of {os.path.basename(path)!r}\n".encode("utf-8", "backslashreplace") + b"".join(b"line %06d of the long tail\n" % i for i in range(pad))
         os.makedirs(os.path.dirname(path), exist_ok=True)
         with open(path, "wb") as f:
             f.write(content)
@@ -185,6 +185,13 @@ def capsule_tree(rng, base: str, symlinks=True, odd_names=True, root_via_symlink
                 add_file(p, True)
     if rng.random() < 0.4:
         add_file(os.path.join(real_root, "n" * 200 + ".gmi"), True)
+    # a page of several KiB (longer than a directory inode reports as its own size) as the index of a directory, and one by name
+    big = os.path.join(rng.choice(dirs), "long")
+    if not os.path.exists(big):
+        os.makedirs(big)
+        dirs.append(big)
+        add_file(os.path.join(big, "index.gmi"), True, pad=rng.choice([200, 400, 3000]))
+        add_file(os.path.join(big, "long-page.gmi"), True, pad=300)
     # a regular file of zero bytes (a placeholder page, a truncated export): it has no sentinel, its record says so
     for d in rng.sample(dirs, min(len(dirs), 2)):
         p = os.path.join(d, rng.choice(["empty.gmi", "placeholder.txt", "zero"]))
